@@ -56,11 +56,12 @@ def money (unit : Nat) (a : Acct) (level : Nat) : Option Nat :=
   | none => none
   | some (m, _, _) => some m
 
-/-- `(*AlgoCount).applyRewards` with the tracker threaded -/
+/-- `(*AlgoCount).applyRewards` with the tracker threaded (results of the tracker calls are used through their projections:
+`.1` the value, `.2` the tracker afterwards) -/
 def AlgoCount.applyRewards (ac : AlgoCount) (rewardsPerUnit : Nat) (ot : Bool) : AlgoCount × Bool :=
-  let (r, ot) := OverflowTracker_Mul ot ac.rewardUnits rewardsPerUnit
-  let (m, ot) := OverflowTracker_AddA ot ac.money r
-  ({ ac with money := m }, ot)
+  let r := OverflowTracker_Mul ot ac.rewardUnits rewardsPerUnit
+  let m := OverflowTracker_AddA r.2 ac.money r.1
+  ({ ac with money := m.1 }, m.2)
 
 /-- `statusField` read; `none` = `Panicf("unknown status")` -/
 def getField (t : AccountTotals) (status : Nat) : Option AlgoCount :=
@@ -83,9 +84,9 @@ def addAccount (unit : Nat) (t : AccountTotals) (d : Acct) (ot : Bool) : Option 
     match money unit d t.rewardsLevel with
     | none => none
     | some algos =>
-      let (m, ot) := OverflowTracker_AddA ot sum.money algos
-      let (u, ot) := OverflowTracker_Add ot sum.rewardUnits (MicroAlgos_RewardUnits d.algos unit)
-      some (setField t d.status { money := m, rewardUnits := u }, ot)
+      let m := OverflowTracker_AddA ot sum.money algos
+      let u := OverflowTracker_Add m.2 sum.rewardUnits (MicroAlgos_RewardUnits d.algos unit)
+      some (setField t d.status { money := m.1, rewardUnits := u.1 }, u.2)
 
 /-- `(*AccountTotals).DelAccount` -/
 def delAccount (unit : Nat) (t : AccountTotals) (d : Acct) (ot : Bool) : Option (AccountTotals × Bool) :=
@@ -95,36 +96,34 @@ def delAccount (unit : Nat) (t : AccountTotals) (d : Acct) (ot : Bool) : Option 
     match money unit d t.rewardsLevel with
     | none => none
     | some algos =>
-      let (m, ot) := OverflowTracker_SubA ot sum.money algos
-      let (u, ot) := OverflowTracker_Sub ot sum.rewardUnits (MicroAlgos_RewardUnits d.algos unit)
-      some (setField t d.status { money := m, rewardUnits := u }, ot)
+      let m := OverflowTracker_SubA ot sum.money algos
+      let u := OverflowTracker_Sub m.2 sum.rewardUnits (MicroAlgos_RewardUnits d.algos unit)
+      some (setField t d.status { money := m.1, rewardUnits := u.1 }, u.2)
 
 /-- `(*AccountTotals).ApplyRewards`: only Online and Offline earn -/
 def applyRewards (t : AccountTotals) (rewardsLevel : Nat) (ot : Bool) : AccountTotals × Bool :=
-  let (rewardsPerUnit, ot) := OverflowTracker_Sub ot rewardsLevel t.rewardsLevel
-  let t := { t with rewardsLevel := rewardsLevel }
-  let (on, ot) := t.online.applyRewards rewardsPerUnit ot
-  let t := { t with online := on }
-  let (off, ot) := t.offline.applyRewards rewardsPerUnit ot
-  ({ t with offline := off }, ot)
+  let d := OverflowTracker_Sub ot rewardsLevel t.rewardsLevel
+  let on := t.online.applyRewards d.1 d.2
+  let off := t.offline.applyRewards d.1 on.2
+  ({ t with rewardsLevel := rewardsLevel, online := on.1, offline := off.1 }, off.2)
 
 /-- `Participating()`; `none` = overflow `Panicf` -/
 def participating (t : AccountTotals) : Option Nat :=
-  let (res, overflowed) := OAddA t.online.money t.offline.money
-  if overflowed then none else some res
+  let r := OAddA t.online.money t.offline.money
+  if r.2 then none else some r.1
 
 /-- `All()` -/
 def all (t : AccountTotals) : Option Nat :=
   match participating t with
   | none => none
   | some p =>
-    let (res, overflowed) := OAddA t.notParticipating.money p
-    if overflowed then none else some res
+    let r := OAddA t.notParticipating.money p
+    if r.2 then none else some r.1
 
 /-- `RewardUnits()` -/
 def rewardUnits (t : AccountTotals) : Option Nat :=
-  let (res, overflowed) := OAdd 64 t.online.rewardUnits t.offline.rewardUnits
-  if overflowed then none else some res
+  let r := OAdd 64 t.online.rewardUnits t.offline.rewardUnits
+  if r.2 then none else some r.1
 
 inductive TotErr
   | panic                                   -- a `Panicf` was reached
@@ -147,8 +146,7 @@ def deltaLoop (unit : Nat) (parent : Addr → Acct) : List (Addr × Acct) → Ac
 /-- `roundCowState.CalculateTotals` (top-level cow): `prev` = `cb.prevTotals`, `newLevel` = `mods.Hdr.RewardsLevel` -/
 def calculateTotals (unit : Nat) (prev : AccountTotals) (parent : Addr → Acct) (mods : List (Addr × Acct)) (newLevel : Nat) :
     Except TotErr AccountTotals :=
-  let (t0, ot0) := applyRewards prev newLevel false
-  match deltaLoop unit parent mods (t0, ot0) with
+  match deltaLoop unit parent mods (applyRewards prev newLevel false) with
   | none => .error .panic
   | some (t, ot) =>
     if ot then .error .overflow
